@@ -124,6 +124,12 @@ pub(crate) struct ArrayVec<A: ArrayLike> {
 }
 
 impl<A: ArrayLike> ArrayVec<A> {
+    #[cfg(gimli_verif)]
+    #[inline]
+    fn verif_check(&self) {
+        crate::verif::check_arrayvec(self.len, A::as_slice(&self.storage).len());
+    }
+
     pub fn new() -> Self {
         Self {
             storage: A::new_storage(),
@@ -148,6 +154,8 @@ impl<A: ArrayLike> ArrayVec<A> {
 
         storage[self.len] = MaybeUninit::new(value);
         self.len += 1;
+        #[cfg(gimli_verif)]
+        self.verif_check();
         Ok(())
     }
 
@@ -167,6 +175,8 @@ impl<A: ArrayLike> ArrayVec<A> {
         }
         storage[index] = MaybeUninit::new(element);
         self.len += 1;
+        #[cfg(gimli_verif)]
+        self.verif_check();
         Ok(())
     }
 
@@ -175,6 +185,8 @@ impl<A: ArrayLike> ArrayVec<A> {
             None
         } else {
             self.len -= 1;
+            #[cfg(gimli_verif)]
+            self.verif_check();
             // SAFETY: this element is valid and we "forget" it by setting the length.
             Some(unsafe { A::as_slice(&self.storage)[self.len].as_ptr().read() })
         }
